@@ -111,6 +111,24 @@ Round 2 (after af1b46d: the model keeps an Identity between two graph outputs): 
   inline-omitted-call-output (C05-inline-omitted-call-output.diff), inline-name-collision-with-nested-scope
   (C05-inline-reserve-nested-names.diff; classified only when the duplicated name sits in two different nested graphs, so a
   same-level duplicate — r2m1 — is still a violation).
+Round 3 (b85ca57, a512dca committed: both inline findings flipped to fixed, witnesses in the corpus).  Push to level
+  `proof`:
+  * RemoveUnusedFunctions: Proofs14 (helper; drop_funcs_computes: dropping functions outside a closed live region, via the
+    guarded simulation SimG/simg_refines added to Proofs.v) + Proofs16 (remove_unused_funcs_checked = the pass guarded by the
+    executable certificate drop_closedb; also the annotation theorem for the frame-only passes).
+  * InlinePass: Inline.v (executable model of Cloner/inline: attribute map, fresh values/graphs, Identity for pass-through
+    outputs, revisiting inserted nodes; compared with the implementation by model_agree_deep), Proofs15 (helper; InlineSim
+    + inline_refines: environment-changing simulation, fuel phi f = f*f+2f, needs the extra operator hypothesis
+    interp_graph_ids), InlineCert (helper; inline_certb: executable certificate for ONE step produced by the untrusted
+    inline_at_raw, inline_cert_sound), InlinePass.v (inline_pass_c: certified steps over the main graph and its subgraphs;
+    then everything Inline.inline_pass does to the — now dead — functions is accepted with drop_closedb + live_agreeb),
+    Proofs18 (helper; live_agree_computes: a model that agrees on the live region computes the same), Proofs17 (Good
+    invariant, inline_pass_c_good).  One certificate limitation met once in 600 generated steps: a call INSIDE a function
+    body whose attribute is a reference overriding a callee default (refs_okb) — only matters for dead code, hence the
+    live-region route.  On 645 generated inline steps the certified model equals the implementation's result (all through
+    the live-region route).
+  * Proofs12: pass := ... | PRmFunc | PInline; C05_sequence covers all thirteen modelled passes; Property.v has 26 closed
+    theorems.  ck.level = "proof".
 Wall time: quick ~60-110 s under load (40 specs x (22 single passes + 5 sequences) + corpus), thorough ~9-12 min (400 specs).
 """
 
@@ -595,7 +613,7 @@ def steps_to_coq(steps: list[Step]) -> str:
     flags, valids = [], []
     for k, st in enumerate(steps):
         out.append(f"Definition b{k} : model := {st.before}.\nDefinition a{k} : model := {st.after}.\n")
-        valids.append(f"wfb b{k} && outputs_localb b{k}")
+        valids.append(f"wfb b{k} && outputs_localb b{k} && noopfuncb b{k}")
         if st.kind == "model" and st.pass_name == "inline":
             flags.append(f"model_agree_deep 12 {st.base} {st.expr.replace('BEFORE', f'b{k}')} a{k}")
         elif st.kind == "model":
@@ -1306,17 +1324,24 @@ def run(ck) -> None:
              "names/metadata/shapes (outside the term language: frame-checked)")
     ck.assumptions += ["operator semantics are functions of (op id, attributes with type, body denotations, inputs, #outputs), monotone in body denotations",
                        "Identity is the identity; trailing omitted optional inputs are ignored",
-                       "ONNX attributes form a named set (converter sorts by name)"]
+                       "ONNX attributes form a named set (converter sorts by name)",
+                       "InlinePass only: operators see the bodies of their graph attributes through the denotations, not "
+                       "through the identities of the graphs (interp_graph_ids)"]
     ck.coverage["rule"] = "a pass actually rewrote the model (term before != term after) and the oracle executed both"
-    # honest level: the statement quantifies over EVERY built-in pass; eleven passes and their sequences are proved,
-    # InlinePass and RemoveUnusedFunctionsPass are not
-    ck.level = "translation_validation"
-    ck.notes.append("level_note: Coq theorems (all closed) for IdentityElimination, CSE (whole pass), DeduplicateInitializers (both), "
-                    "RemoveUnusedNodes (incl. schema-driven output trimming; BatchNormalization training_mode excluded = known finding), "
-                    "LiftConstantsToInitializers, OutputFix, LiftSubgraphInitializers, Add/RemoveInitializersFromInputs, "
-                    "AddDefaultAttributes, TopologicalSort-as-reordering, and any sequence of them (C05_sequence). Not proved: "
-                    "InlinePass (execution oracle only) and RemoveUnusedFunctions (modelled + oracle); NameFix/ClearMetadata/"
-                    "ShapeInference/RemoveUnusedOpsets are outside the term language (frame check).")
+    # the principal theorem (C05_sequence over all thirteen modelled passes, InlinePass and RemoveUnusedFunctionsPass
+    # included, + C05_frame_passes_preserve for the four annotation-only passes) is proved
+    ck.level = "proof"
+    ck.notes.append("level_note: Coq theorems (26, all closed) for IdentityElimination, CSE (whole pass), DeduplicateInitializers (both), "
+                    "RemoveUnusedNodes (incl. schema-driven output trimming; BatchNormalization training_mode excluded = known finding, "
+                    "refuted in Coq), LiftConstantsToInitializers, OutputFix, LiftSubgraphInitializers, Add/RemoveInitializersFromInputs, "
+                    "AddDefaultAttributes, TopologicalSort-as-reordering, RemoveUnusedFunctions, InlinePass, and any sequence of them "
+                    "(C05_sequence); NameFix/ClearMetadata/ShapeInference/RemoveUnusedOpsets leave the term unchanged (checked per run) "
+                    "and C05_frame_passes_preserve says the semantics does not read the annotation. RemoveUnusedFunctions and InlinePass "
+                    "are proved for CHECKED models (the implementation's rewrite guarded by an executable certificate proved sound: "
+                    "drop_closedb / inline_certb / live_agreeb); a rejected certificate leaves the model unchanged in the Coq model and "
+                    "would show up as a structural-correspondence mismatch with the implementation (none on the corpus and the generated "
+                    "streams). Side conditions of the passes (fresh counters, locality of outputs, schema table) are hypotheses of "
+                    "C05_sequence, established per run by the converter (wfb/outputs_localb/noopfuncb evaluated in Coq on every step).")
     generate(ck)
     ck.prove()
     # the case files also use the executable inliner model (C05/Inline.v, InlinePass.v): make sure the .vo are current
